@@ -76,6 +76,10 @@ int libwifi_parse_assoc_resp(struct libwifi_bss *bss, struct libwifi_frame *fram
         (frame->len - (frame->header_len + sizeof(struct libwifi_assoc_resp_fixed_parameters)));
     const unsigned char *tagged_params = frame->body + sizeof(struct libwifi_assoc_resp_fixed_parameters);
     bss->tags.parameters = malloc(bss->tags.length);
+    if (bss->tags.parameters == NULL) {
+        bss->tags.length = 0;
+        return -ENOMEM;
+    }
     memcpy(bss->tags.parameters, tagged_params, bss->tags.length);
 
     // Iterate through common BSS tagged parameters (WPA, RSN, etc)
